@@ -171,6 +171,7 @@ func (r *Source) Read(p []byte) (int, error) {
 	copy(p, r.Data[r.Pos:r.Pos+n])
 	r.Handed = append(r.Handed, r.Data[r.Pos:r.Pos+n]...)
 	r.Pos += n
+	rt.Progress()
 	if r.DataWithErr && n > 0 && r.Pos == lim && r.T.D(3) == 0 {
 		// io.Reader allows the last data before an error to come with the
 		// error itself (iotest.DataErrReader, network and decompressing readers)
@@ -226,6 +227,7 @@ func (w *Sink) Write(p []byte) (int, error) {
 	w.Buf = append(w.Buf, p...)
 	w.Calls++
 	w.InFlight--
+	rt.Progress()
 	return len(p), nil
 }
 
@@ -341,6 +343,7 @@ func (c *Conn) Read(p []byte) (int, error) {
 			copy(p, c.in.buf[:n])
 			c.ReadBuf = append(c.ReadBuf, c.in.buf[:n]...)
 			c.in.buf = c.in.buf[n:]
+			rt.Progress()
 			signal(c.in.space)
 			if len(c.in.buf) > 0 || c.in.closed {
 				signal(c.in.data)
@@ -392,6 +395,7 @@ func (c *Conn) Write(p []byte) (int, error) {
 			c.Written = append(c.Written, p[written:written+room]...)
 			written += room
 			signal(c.out.data)
+			rt.Progress()
 		}
 		if written == len(p) {
 			return written, nil
